@@ -160,6 +160,8 @@ def to_aexp(term):
         return '(ASub %s %s)' % (L(term[1]), L(term[2]))
     if k == 'subfloor':
         return '(AMax (AConst 0) (ASub %s %s))' % (L(term[1]), L(term[2]))
+    if k == 'scalefloor':
+        return '(AMax (AConst 0) %s)' % to_aexp(('scale', term[1], term[2]))
     if k == 'scale':
         from decimal import Decimal
         d = Decimal(term[2])
@@ -182,7 +184,7 @@ def lines_of(term):
     k = term[0]
     if k in ('sum', 'sumfloor', 'sumceil0'):
         return list(term[1])
-    if k == 'scale' or k == 'carry':
+    if k in ('scale', 'scalefloor', 'carry'):
         return [term[1]]
     return [term[1], term[2]]
 
@@ -212,6 +214,8 @@ def evaluate(term, env):
         return -((-d) // u) * u
     if k == 'scale':
         return env[term[1]] * Fraction(term[2])
+    if k == 'scalefloor':
+        return max(Fraction(0), env[term[1]] * Fraction(term[2]))
     if k == 'min':
         return min(env[term[1]], env[term[2]])
     if k == 'max':
@@ -255,8 +259,8 @@ def to_xexp(term):
         return '(XSub %s %s)' % (L(term[1]), L(term[2]))
     if k == 'subfloor':
         return '(XMax (XConst 0) (XSub %s %s))' % (L(term[1]), L(term[2]))
-    if k == 'scale':
-        return to_aexp(term).replace('AScale', 'XScale').replace('ALine', 'XLine')
+    if k in ('scale', 'scalefloor'):
+        return to_aexp(term).replace('AScale', 'XScale').replace('ALine', 'XLine').replace('AMax', 'XMax').replace('AConst', 'XConst')
     if k == 'min':
         return '(XMin %s %s)' % (L(term[1]), L(term[2]))
     if k == 'max':
